@@ -335,3 +335,95 @@ Proof.
   replace (Z.of_nat total + Z.of_nat k)%Z with (Z.of_nat (total + k)) by lia.
   destruct tmo; [destruct (late || sslow_head sc)|]; cbn [andb]; try reflexivity; apply IH.
 Qed.
+
+(* ---- recv, peek, recv_close assembled from the generated pieces ------------------------------------- *)
+Definition recv_src (s : bs) (k : nat) : outcome * bs :=
+  match src_recv_pre (Z.of_nat k) (rbuf s) with
+  | IBreak (v, rb) => (OBytes v, set_recv s rb (nt s))
+  | IEffect rb0 =>
+      match sock_recv (recvsize s) (nt s) with
+      | (RIntr e, n') => (OExn e, set_recv s rb0 n')       (* socket.timeout -> Timeout; others propagate *)
+      | (RData data, n') =>
+          match src_recv_post (Z.of_nat k) rb0 data with
+          | IBreak (v, rb) => (OBytes v, set_recv s rb n')
+          | _ => (OExn OutOfFuel, s)
+          end
+      end
+  | _ => (OExn OutOfFuel, s)
+  end.
+
+Lemma geb_nat a b : (Z.of_nat a >=? Z.of_nat b)%Z = Nat.leb b a.
+Proof.
+  rewrite Z.geb_leb. destruct (Nat.leb b a) eqn:E.
+  - apply Nat.leb_le in E. apply Z.leb_le. lia.
+  - apply Nat.leb_gt in E. apply Z.leb_gt. lia.
+Qed.
+
+Lemma gtb_nat a b : (Z.of_nat a >? Z.of_nat b)%Z = Nat.ltb b a.
+Proof.
+  rewrite Z.gtb_ltb. destruct (Nat.ltb b a) eqn:E.
+  - apply Nat.ltb_lt in E. apply Z.ltb_lt. lia.
+  - apply Nat.ltb_ge in E. apply Z.ltb_ge. lia.
+Qed.
+
+Theorem recv_src_eq s k : recv_src s k = recv s k.
+Proof.
+  unfold recv_src, recv, src_recv_pre, src_recv_post, py_len, py_truthy.
+  rewrite geb_nat, !slice_to_nat, !slice_from_nat.
+  destruct (Nat.leb k (length (rbuf s))); [reflexivity|].
+  destruct (rbuf s) as [|x rb] eqn:Erb; cbn [is_nil negb]; [|reflexivity].
+  destruct (sock_recv (recvsize s) (nt s)) as [[data|e] n']; [|reflexivity].
+  rewrite gtb_nat, slice_to_nat, slice_from_nat. destruct (Nat.ltb k (length data)); reflexivity.
+Qed.
+
+Definition peek_src (s : bs) (k : nat) : outcome * bs :=
+  match src_peek_pre (Z.of_nat k) (rbuf s) with
+  | IBreak (v, rb) => (OBytes v, set_recv s rb (nt s))
+  | IEffect _ =>
+      match recv_size s k with                               (* data = self.recv_size(size, timeout=timeout) *)
+      | (OBytes data, s') =>
+          match src_peek_post (rbuf s') data with
+          | IBreak (v, rb) => (OBytes v, set_recv s' rb (nt s'))
+          | _ => (OExn OutOfFuel, s')
+          end
+      | r => r
+      end
+  | _ => (OExn OutOfFuel, s)
+  end.
+
+Lemma set_recv_same s : set_recv s (rbuf s) (nt s) = s.
+Proof. destruct s. reflexivity. Qed.
+
+Theorem peek_src_eq s k : peek_src s k = peek s k.
+Proof.
+  unfold peek_src, peek, src_peek_pre, src_peek_post, py_len. rewrite geb_nat, slice_to_nat.
+  destruct (Nat.leb k (length (rbuf s))); [rewrite set_recv_same; reflexivity|].
+  destruct (recv_size s k) as [[data| | |e] s']; reflexivity.
+Qed.
+
+Lemma rc_size_ok lim mz total : mz_ok lim mz total -> sz_ok (option_map S lim) (src_rc_size mz) total.
+Proof. unfold mz_ok, sz_ok, src_rc_size. destruct lim; cbn [option_map]; intros; subst; lia. Qed.
+
+Definition recv_close_src (s : bs) (mz : Z) : outcome * bs :=
+  match recv_size_src s (src_rc_size mz) with                 (* recvd = self.recv_size(maxsize + 1, timeout) *)
+  | (OExn ConnectionClosed, s') =>
+      match src_rc_closed (rbuf s') with
+      | IBreak (v, rb) => (OBytes v, set_recv s' rb (nt s'))
+      | _ => (OExn OutOfFuel, s')
+      end
+  | (OBytes recvd, s') =>
+      match src_rc_toolong (rbuf s') recvd with
+      | IRaise e rb => (OExn e, set_recv s' rb (nt s'))
+      | _ => (OExn OutOfFuel, s')
+      end
+  | r => r
+  end.
+
+Theorem recv_close_src_eq s m mz :
+  mz_ok (resolve (maxsize s) m) mz (length (rbuf s) + length (flat (nt s))) ->
+  recv_close_src s mz = recv_close s m.
+Proof.
+  intro Hm. unfold recv_close_src, recv_close.
+  rewrite (recv_size_src_eq s (option_map S (resolve (maxsize s) m))) by (apply rc_size_ok; exact Hm).
+  destruct (recv_size_lim s _) as [[recvd| | |[]] s']; reflexivity.
+Qed.
